@@ -303,6 +303,18 @@ func init() {
 		if c.Thorough() {
 			pre = 3
 		}
+		// one key whose origin changes its mind: a marker written over an entry that held a response obeys its own period
+		// after a restart (stores that do / do not expire records themselves)
+		for _, kind := range []string{"ttl", "lazy"} {
+			cfg := env.BasicConfig(config.CacheConfig{HitForPass: "2s", Store: "fault://c08marker" + kind})
+			sys := &keySys{cfg: cfg, cfgKey: "c08marker" + kind, P: 2, store: kind, events: []keyEvent{
+				{Name: "GET(origin:max-age=1)", Kind: "get", Ans: "cacheable", T: 1},
+				{Name: "GET(origin:uncacheable)", Kind: "get", Ans: "uncacheable"},
+				{Name: "tick+3", Kind: "tick", D: 3},
+				{Name: "restart(memory lost, store kept)", Kind: "restart"},
+			}}
+			c.runBFS("bfs-marker-over-response-restart-"+kind, sys, depth+1, nil)
+		}
 		c.RunSched(c08Conc(c, "concurrent-writes-then-restart", vsched.Bounds{Preempt: pre, Tick: 0, Data: -1, Total: -1}))
 		c08Real(c)
 	})
